@@ -965,18 +965,20 @@ class Segment(Geodesic):
         a22 = products[..., 1, 1]
         a12 = products[..., 0, 1]
 
-        a = a11 - 2 * a12 + a22
-        b = 2 * a12 - 2 * a22
-        c = a22
+        # the endpoints are only defined up to scale, so we look for null
+        # vectors x * p1 + y * p2 with (x : y) homogeneous coordinates:
+        # a11 x^2 + 2 a12 xy + a22 y^2 = 0 has the solutions (q : a11) and
+        # (a22 : q). Dividing by <p1 - p2, p1 - p2> instead would fail
+        # whenever the chosen lifts differ by a lightlike vector.
+        disc = np.sqrt(a12 * a12 - a11 * a22)
+        q = -(a12 + np.where(a12 > 0, 1, -1) * disc)
 
-        mu1 = (-b + np.sqrt(b * b - 4 * a * c)) / (2*a)
-        mu2 = (-b - np.sqrt(b * b - 4 * a * c)) / (2*a)
+        # null1 lies past the first endpoint, null2 past the second
+        null1 = (q[..., np.newaxis] * end_data[..., 0, :] +
+                 a11[..., np.newaxis] * end_data[..., 1, :])
 
-        null1 = (mu1[..., np.newaxis] * end_data[..., 0, :] +
-                 (1 - mu1)[..., np.newaxis] * end_data[..., 1, :])
-
-        null2 = (mu2[..., np.newaxis] * end_data[..., 0, :] +
-                 (1 - mu2)[..., np.newaxis] * end_data[..., 1, :])
+        null2 = (a22[..., np.newaxis] * end_data[..., 0, :] +
+                 q[..., np.newaxis] * end_data[..., 1, :])
 
         ideal_basis = np.stack([null1, null2], axis=-2)
 
